@@ -215,9 +215,18 @@ def po2_sr_scenario():
     val, lo, hi = ip.draws[0]
     s.vars["val"] = val
     # adjacent: 2^e_l <= y <= 2^e_r with e_r = e_l + 1 and the result one of them
-    lft = z3.Int("left")
-    s.claim("adjacent", z3.Exists([lft], z3.And(z3.Or(ee == lft, ee == lft + 1), P(lft) <= y * (1 + zreal(1e-4)),
-                                                y <= P(lft + 1))))
+    tol = 1 + zreal(1e-4)
+    s.hints.extend([ee, ee + 1, ee - 1])
+    s.claim("adjacent", z3.Or(z3.And(P(ee) <= y * tol, y <= P(ee + 1)),          # rounded down: left = ee
+                              z3.And(P(ee - 1) <= y * tol, y <= P(ee))))         # rounded up:   left = ee - 1
+    # codes are returned unchanged: y = 2^k gives exponent k (the draw lies strictly above the lower end 2^k)
+    k = z3.Int("k_code")
+    s.vars["k_code"] = k
+    s.hints.extend([k, k + 1, k - 1])
+    s.claim("fixed", z3.Implies(z3.And(y == P(k), val > lo), ee == k))
+    # threshold: the lower exponent is returned exactly when y < val
+    s.claim("threshold", z3.And(z3.Implies(z3.And(P(ee) <= y, y < P(ee + 1), P(ee) < y), y < val),
+                                z3.Implies(z3.And(P(ee - 1) < y, y < P(ee)), z3.Not(y < val))))
     s.replay = {"what": "stochastic_round_po2"}
     return s
   return scenario
@@ -303,6 +312,8 @@ def cases(tier):
       out.append(Case(PROP, Q.QF + cls + ".__call__", "phase1_quadratic%d" % quad, po2_phase1(cls, quad), bounds=bounds,
                       replay_kind="c08_po2", assumptions=ASSUME + ["contract of stochastic_round_po2 (adjacent integer exponent) assumed at its call site"],
                       setup=phase(1), lo=-130, hi=130))
+  out.append(Case(PROP, Q.QF + "stochastic_round_po2", "body", po2_sr_scenario(), bounds=bounds, replay_kind=None,
+                  assumptions=ASSUME, setup=phase(1), lo=-40, hi=40, timeout_ms=20000))
   for cls in ("stochastic_binary", "stochastic_ternary"):
     out.append(Case(PROP, Q.QF + cls + ".__call__", "phase0", stoch_class_phase0(cls), bounds=bounds,
                     replay_kind="c08", assumptions=ASSUME, setup=phase(0)))
